@@ -285,7 +285,7 @@ def amplified(rng, tier):
 
 
 def run(chk, replay=None):
-    coq = coq_build(["C22"], ["C22/Props.v", "C22/PropsScripts.v"])
+    coq = coq_build(["C22"], ["C22/Props.v", "C22/PropsScripts.v", "C22/PropsRsp.v"])
     chk.add_coq(coq)
     okw, outw, wild = wild_build()
     okh, outh, wvh = harness_build()
@@ -388,6 +388,89 @@ def run(chk, replay=None):
                     chk.tie_break(f"correspondence C22.VScript ({kind} parser) on {t[:120]!r}: implementation {got[:300]}, model {want[:300]}", {key: t.hex()})
     elif okv:
         chk.tie_break("model evaluation: wrong number of answers (version-script parser)", {"items": len(vtexts) + len(etexts), "answers": len(vflat) + len(eflat)})
+    # ---- @file expansion: model vs implementation on graphs of argument files (cycles, chains around the depth limit)
+    RSP_IMPORTS = ("From Coq Require Import NArith List Bool. Import ListNotations.\nFrom WV Require Import C22.RspFiles.\nOpen Scope N_scope.\n"
+                   "Fixpoint of_list (l : list (N * list arg)) : fsys := match l with [] => fun _ => None | (k, v) :: r => fun f => if f =? k then Some v else of_list r f end.\n"
+                   "Definition show (r : xres) := match r with XOk l => (0, l) | XTooDeep => (1, []) | XMissing => (2, []) end.\n")
+    K = 4
+    graphs = []
+    for ln in (1, 2, 99, 100, 101, 102, 150):                      # chains: file i names file i+1, the last one defines everything
+        files = {i: [("at", i + 1)] for i in range(1, ln)}
+        files[ln] = [("plain", n) for n in range(1, K + 1)]
+        graphs.append((files, [("at", 1)]))
+    graphs.append(({1: [("at", 1)]}, [("at", 1)]))
+    graphs.append(({1: [("plain", 1), ("at", 2)], 2: [("plain", 2), ("at", 1)]}, [("at", 1), ("plain", 3), ("plain", 4)]))
+    graphs.append(({1: [("plain", 1), ("plain", 2)]}, [("at", 1), ("at", 1), ("plain", 3), ("plain", 4)]))
+    for _ in range(40 if chk.tier == "quick" else 400):
+        nf = rng.randrange(1, 6)
+        files = {}
+        for i in range(1, nf + 1):
+            items = []
+            for _ in range(rng.randrange(0, 4)):
+                if rng.random() < 0.5:
+                    items.append(("plain", rng.randrange(1, K + 1)))
+                else:
+                    r_ = rng.random()
+                    if r_ < 0.8 and i < nf:
+                        items.append(("at", rng.randrange(i + 1, nf + 1)))      # forward: acyclic
+                    elif r_ < 0.9:
+                        items.append(("at", rng.randrange(1, nf + 1)))          # any file: cycles
+                    elif r_ < 0.95:
+                        items.append(("at", 77))                                # a file that does not exist
+                    else:
+                        items.append(("plain", rng.randrange(1, K + 1)))
+            files[i] = items
+        top = [("at", rng.randrange(1, nf + 1)) for _ in range(rng.randrange(1, 3))] + [("plain", n) for n in range(1, K + 1) if rng.random() < 0.75]
+        rng.shuffle(top)
+        graphs.append((files, top))
+
+    def coq_args(items):
+        return "[" + "; ".join(("Plain %d" % v) if k == "plain" else ("At %d" % v) for k, v in items) + "]"
+    ritems = ["show (expand_args (of_list [" + "; ".join(f"({i}, {coq_args(v)})" for i, v in sorted(fl.items())) + "]) " + coq_args(top) + ")" for fl, top in graphs]
+    rc_, o = coq_eval("c22rsp", "Eval vm_compute in [\n" + ";\n".join(ritems) + "].\n", RSP_IMPORTS, timeout=600)
+    stats["response_file_graphs"] = {"cases": 0, "ok": 0, "too_deep": 0, "missing": 0, "incomplete": 0, "mismatch": 0}
+    if rc_ != 0:
+        chk.tie_break("model evaluation failed (coqc, @file expansion)", o[-1500:])
+    else:
+        rres = parse_coq_value(o)
+        dg = tempfile.mkdtemp(prefix="c22r")
+        try:
+            open(f"{dg}/m.s", "w").write(".globl _start\n_start:\n" + "".join(f" movabs $s{n}, %rax\n" for n in range(1, K + 1)) + " ret\n")
+            sh(f"cd {dg} && as --64 m.s -o m.o", timeout=60)
+            for gi, ((fl, top), mv) in enumerate(zip(graphs, rres)):
+                w = f"{dg}/g{gi}"
+                os.makedirs(w)
+
+                def txt(items):
+                    return " ".join((f"--defsym=s{v}={v}" if k == "plain" else f"@r{v}.rsp") for k, v in items)
+                for i, items in fl.items():
+                    open(f"{w}/r{i}.rsp", "w").write(txt(items) + "\n")
+                try:
+                    pr = subprocess.run([wild, "../m.o", "-o", "out"] + txt(top).split(), cwd=w, stdout=subprocess.PIPE, stderr=subprocess.STDOUT, timeout=60)
+                    rcw, outw_ = pr.returncode, pr.stdout.decode("utf-8", "replace")
+                except subprocess.TimeoutExpired:
+                    rcw, outw_ = "timeout", ""
+                shutil.rmtree(w, ignore_errors=True)
+                st = stats["response_file_graphs"]
+                st["cases"] += 1
+                rep = {"rsp_graph": {"files": {str(k): v for k, v in fl.items()}, "top": top}}
+                code, lst_ = mv
+                if code == 0:
+                    want = "ok" if set(lst_) >= set(range(1, K + 1)) else "undefined"
+                else:
+                    want = "too-deep" if code == 1 else "missing"
+                st[{"ok": "ok", "undefined": "incomplete", "too-deep": "too_deep", "missing": "missing"}[want]] += 1
+                if rcw == "timeout" or "overflowed its stack" in outw_ or "panicked at" in outw_ or (isinstance(rcw, int) and (rcw < 0 or rcw in (101, 134, 139))):
+                    chk.violation(f"wild crashes or hangs on a graph of argument files ({str(rcw)}: {outw_.strip()[-160:]})", rep)
+                    continue
+                got = ("ok" if rcw == 0 else "too-deep" if "nested too deeply" in outw_ else "missing" if "Failed to read arguments from file" in outw_
+                       else "undefined" if "ndefined symbol" in outw_ else "other: " + outw_.strip()[-120:])
+                if got != want:
+                    st["mismatch"] += 1
+                    stats["model_mismatch"] += 1
+                    chk.tie_break(f"correspondence C22.RspFiles.expand_args: wild gives {got!r}, the model {want!r}", rep)
+        finally:
+            shutil.rmtree(dg, ignore_errors=True)
     # ---- the real inputs
     d = tempfile.mkdtemp(prefix="c22")
     try:
